@@ -36,7 +36,8 @@ Definition site_model_ok (c : site_case) : bool :=
   | None =>
       if n =? 11 then
         match aux with
-        | [pre; post] => str_eqb (site_block_doc pre post t) out && safe_doc_raw pre && isoq post
+        | [pre; post] => str_eqb (site_block_doc pre post t) out && safe_doc_raw pre
+                         && match post with sep :: post' => sep_ok sep && isoq post' | [] => false end
         | _ => false
         end
       else if n =? 12 then site_docwriter_rel (join t aux) out && safe_doc_raw (concat aux)
@@ -56,19 +57,14 @@ Definition site_model_ok (c : site_case) : bool :=
 
 (* guard of site n on text t *)
 Definition site_safe (n : N) (t : str) : bool :=
-  if (n <=? 4) || (n =? 8) || (n =? 10) then scalar t          (* repaired: inert on every Unicode scalar string *)
-  else if (n <=? 7) || (n =? 20) then in_range t                (* repaired / repr: inert on every string *)
-  else if n =? 9 then safe_alias_doc t
-  else if n =? 16 then no_chars bad_raw t
-  else if (17 <=? n) && (n <=? 19) then safe_enum_default t
-  else safe_doc_raw t.
+  if (17 <=? n) && (n <=? 19) then safe_enum_default t
+  else if ((5 <=? n) && (n <=? 7)) || (n =? 20) then in_range t     (* ASCII-only escapers: every string *)
+  else scalar t.                                                     (* every other site: every Unicode scalar string *)
 (* finding bit of site n: 1 F15a enum  2 F15b Meta  3 F15c alias  4 F15d DocumentationWriter  5 F15e comment
    6 F15f query/header keys  7 F15g client docstring  8 F15h default  9 F15i discriminator  10 F15j media type
    11 F15k raw docstring templates (wrapper classes, overload docstring, tag docstrings) *)
-Definition site_finding (n : N) : N :=   (* 0 = no open finding: sites 1-8, 10, 20 are repaired (F15a/b/e/f/h/i/j fixed) *)
-  if (n <=? 8) || (n =? 10) || (n =? 20) then 0
-  else if n =? 9 then 3 else if n =? 12 then 4
-  else if (n =? 15) || (n =? 16) then 7 else if (17 <=? n) && (n <=? 19) then 12 else 11.
+Definition site_finding (n : N) : N :=   (* only the enum-typed default (F15l, bit 12) is still open; F15a-k are fixed *)
+  if (17 <=? n) && (n <=? 19) then 12 else 0.
 Definition findings : list N := [1; 2; 3; 4; 5; 6; 7; 8; 9; 10; 11; 12].
 Definition guards_for (ns : list N) (t : str) : list bool :=
   map (fun j => forallb (fun n => negb (site_finding n =? j) || site_safe n t) ns) findings.
@@ -108,7 +104,7 @@ Definition site_pred (n : N) (t : str) : bool :=
       if n =? 12 then inert_doc_b (block_line (ws_to_sp t))
       else if n =? 13 then inert_doc_b (site_tag_doc t)
       else if n =? 15 then inert_doc_b (site_client_title [49;46;48] t)
-      else if n =? 16 then no_chars bad_raw t
+      else if n =? 16 then scalar t
       else if n =? 20 then
         match lex_lit (site_media_repr (fun _ => false) t) with Some (v, []) => str_eqb v t | _ => false end
       else if n =? 17 then   (* ASCII text: the attribute name is computed by the model; after the name only blanks or a comment *)
